@@ -335,7 +335,19 @@ class Verifier:
 
 
 # ----------------------------------------------------------------------
+STAGES = []      # (seconds, verdict, mbqi, timeout_ms) of the last queries
+
+
 def _solve(hyps, goal, timeout_ms, mbqi=None):
+    t0 = time.time()
+    r, s = _solve0(hyps, goal, timeout_ms, mbqi)
+    STAGES.append((round(time.time() - t0, 2), str(r), mbqi, timeout_ms,
+                   len(hyps)))
+    del STAGES[:-12]
+    return r, s
+
+
+def _solve0(hyps, goal, timeout_ms, mbqi=None):
     s = z3.Solver()
     if mbqi is not None:
         s.set("smt.mbqi", mbqi)
@@ -450,21 +462,35 @@ def discharge(obls, timeout_ms=10000, use_cvc5=False, refute=True):
         o.solver = "z3"
         o.status = None
         r, s = None, None
-        # the exp axioms are a conservative extension: irrelevant (and an
-        # obstacle to model construction) when nothing mentions exp/log
-        if not _mentions(g, _LOGSYMS) and not any(
-                _mentions(h, _LOGSYMS) for h in o.hyps
-                if h.get_id() not in _bg_ids()):
-            o.hyps = [h for h in o.hyps if h.get_id() not in _bg_ids()]
+        # background axioms are conservative extensions: each one is
+        # irrelevant (and an obstacle to model construction) when nothing
+        # else mentions the symbols it is about
+        keep = []
+        others = [h for h in o.hyps if h.get_id() not in _bg_ids()]
+        for h in o.hyps:
+            if h.get_id() in _bg_ids():
+                syms = _bg_syms(h)
+                if _mentions(g, syms) or any(_mentions(q, syms)
+                                             for q in others):
+                    keep.append(h)
+            else:
+                keep.append(h)
+        o.hyps = keep
         pruned = None
         if not _mentions(g, _LOGSYMS):
             pruned = [h for h in o.hyps if not _mentions(h, _LOGSYMS)]
             if len(pruned) == len(o.hyps):
                 pruned = None
         if pruned is not None:
-            r, s = _solve(pruned, g, min(8000, timeout_ms), mbqi=False)
+            # a short attempt on the full query first: when the pruned
+            # facts are needed the pruned query only times out
+            r, s = _solve(o.hyps, g, min(1500, timeout_ms), mbqi=False)
             if r != z3.unsat:
                 r = None
+            if r is None:
+                r, s = _solve(pruned, g, min(8000, timeout_ms), mbqi=False)
+                if r != z3.unsat:
+                    r = None
         if r is None:
             r, s = _solve(o.hyps, g, min(6000, timeout_ms), mbqi=False)
             if r == z3.sat:
@@ -532,6 +558,29 @@ def check_vacuity(pc):
 _LOGSYMS = ("EXPF", "LOGF", "SUMA")
 
 
+def _bg_syms(ax, _c={}):
+    """the uninterpreted function symbols a background axiom talks about"""
+    k = ax.get_id()
+    if k not in _c:
+        names = set()
+        seen, stack = set(), [ax]
+        while stack:
+            t = stack.pop()
+            if t.get_id() in seen:
+                continue
+            seen.add(t.get_id())
+            if z3.is_quantifier(t):
+                stack.append(t.body())
+                continue
+            if z3.is_app(t):
+                if t.decl().kind() == z3.Z3_OP_UNINTERPRETED and \
+                        t.num_args() > 0:
+                    names.add(t.decl().name())
+                stack.extend(t.children())
+        _c[k] = tuple(sorted(names))
+    return _c[k]
+
+
 def _bg_ids(_c={}):
     if "ids" not in _c:
         from .values import BACKGROUND
@@ -540,9 +589,9 @@ def _bg_ids(_c={}):
 
 
 def _mentions(f, names, _cache={}):
-    k = f.get_id()
+    k = (f.get_id(), tuple(names))
     if k in _cache:
-        return _cache[k]
+        return _cache[k][0]
     seen = set()
     stack = [f]
     found = False
@@ -559,7 +608,7 @@ def _mentions(f, names, _cache={}):
                 found = True
                 break
             stack.extend(t.children())
-    _cache[k] = found
+    _cache[k] = (found, f)      # f kept alive: its id stays its own
     return found
 
 
@@ -687,7 +736,11 @@ def _inst_real_axioms(fs):
     pointwise, so any model of the instances extends to a model of the
     axioms."""
     from .values import BACKGROUND
-    bg = {f.get_id(): f for f in BACKGROUND if z3.is_quantifier(f)}
+    # only the exp axioms (one real bound variable, pattern EXPF(t)); other
+    # background axioms (e.g. the flow bijection laws) stay as they are
+    bg = {f.get_id(): f for f in BACKGROUND
+          if z3.is_quantifier(f) and f.num_vars() == 1 and
+          f.var_sort(0) == z3.RealSort()}
     rest = [f for f in fs if f.get_id() not in bg]
     if len(rest) == len(fs):
         return fs
